@@ -4,6 +4,7 @@ import ClaripyProofs.Lemmas.VSA.Lub
 import ClaripyProofs.Lemmas.VSA.Members
 import ClaripyProofs.Lemmas.VSA.MinMax
 import ClaripyProofs.Lemmas.VSA.EvalExact
+import ClaripyProofs.Lemmas.VSA.EvalSigned
 import ClaripyProofs.Lemmas.VSA.MeetFinal
 import ClaripyProofs.Lemmas.VSA.AlignedMul
 /-!
@@ -96,6 +97,23 @@ theorem C22_eval_exact (s : SI) (n : Nat) (l : List Int) (hs : s.WF) (hnb : s.bo
 
 /-- non-vacuity: a wrapping interval, fewer values requested than there are -/
 example : (SI.new 4 5 13 7).eval 2 false = .ok [13, 2] ∧ (SI.new 4 5 13 7).eval 9 false = .ok [13, 2, 7] := by decide
+
+/-- `eval(n, signed=True)` returns exactly the SIGNED values of the first `n` entries of the member list (the pieces of
+`_nsplit` are visited in order, each from its lower bound upwards — which is the member-list order): no repetition, nothing that
+is not a member, and all members once `n` reaches the cardinality (interval in constructor-normal form) -/
+theorem C22_eval_signed_exact (s : SI) (n : Nat) (l : List Int) (hs : s.WF) (hnb : s.bottom = false) (hn : s.renorm = s)
+    (h : s.eval n true = .ok l) :
+    l = (s.members.take n).map (fun (v : Nat) => Conc.toInt s.bits v) ∧
+    (s.members.length ≤ n → ∀ x, s.mem x → Conc.toInt s.bits x ∈ l) := by
+  have he := eval_signed_exact s n l hs hnb hn h
+  refine ⟨he, ?_⟩
+  intro hn' x hx
+  rw [he, List.take_of_length_le hn']
+  exact List.mem_map.2 ⟨x, (mem_members s hs x).2 hx, rfl⟩
+
+/-- non-vacuity: an interval straddling both poles (two pieces), fewer values requested than there are -/
+example : (SI.new 4 3 6 1).renorm = SI.new 4 3 6 1 ∧ (SI.new 4 3 6 1).members = [6, 9, 12, 15] ∧
+    (SI.new 4 3 6 1).eval 3 true = .ok [6, -7, -4] ∧ (SI.new 4 3 6 1).eval 9 true = .ok [6, -7, -4, -1] := by decide
 
 /-! ## min / max -/
 
